@@ -305,6 +305,28 @@ static void c07_exec(const Plan &plan, Verdict &v)
 		return;
 	}
 	if (mt.status != ref.status) { v.fail("status", "C07/status", "final status differs" + ctx); return; }
+	// Known finding KF-C07-5 (the mechanism is KF-C06-2 of C06): on rejected LZMA2 input the LZMA decoder
+	// runs past the end of the corrupt chunk as far as the output space of the call allows before the
+	// LZMA2 layer notices, so the number of (garbage) bytes delivered from the failing Block depends on
+	// the output space - the Block-sized buffer of a worker, the caller's buffer in direct mode, the
+	// never-full buffer of the reference. Recognised only when the status is the same error, one output
+	// is a prefix of the other and both contain everything before the failing Block.
+	if (ref.status != LZMA_STREAM_END && ref.status != LZMA_OK && mt.out.size() != ref.out.size() && info.block_plain_sizes.size() == info.n_blocks) {
+		const Bytes &a = mt.out.size() < ref.out.size() ? mt.out : ref.out, &b = mt.out.size() < ref.out.size() ? ref.out : mt.out;
+		size_t d = b.size() - a.size();
+		size_t start = 0;   // plaintext offset where the Block begins in which the reference stopped
+		for (size_t n : info.block_plain_sizes) { if (start + n > ref.out.size()) break; start += n; }
+		// Blocks before the failing one: byte-identical. Inside the failing Block: a plain prefix relation
+		// without BCJ; behind a BCJ filter the bytes of the failing call are delivered unfiltered
+		// (simple_coder.c returns the error before filtering what the next coder just produced), so
+		// they are not compared.
+		bool prefix = a.size() >= start && (start == 0 || memcmp(a.data(), b.data(), start) == 0)
+				&& (c.has_bcj || a.size() == start || memcmp(a.data() + start, b.data() + start, a.size() - start) == 0);
+		if (prefix && a.size() >= start && (!c.has_bcj || d > 32)) {
+			v.fail("rejected-input-output-length-within-block", "C07/rejected-input-output-length-within-block", fmt("on rejected input the number of bytes delivered from the failing Block differs by %zu (Block starts at plaintext offset %zu)", d, start) + ctx);
+			return;
+		}
+	}
 	if (bcj_rejected) {
 		if (mt.out.size() != ref.out.size()) {
 			// Known quirk (see known_findings.json): on an error the BCJ coder
